@@ -15,15 +15,24 @@ def build_rlib(repo=None):
     key = hashlib.sha256((extract.tree_hash(repo) + FEATURES).encode()).hexdigest()[:24]
     d = os.path.join(extract.CACHE, 'rlib-' + key)
     marker = os.path.join(d, 'ok')
-    if os.path.exists(marker):
-        return d
-    os.makedirs(extract.CACHE, exist_ok=True)
     import time
+    if os.path.exists(marker):
+        try:
+            os.utime(d, None)               # a build in use is not stale
+            os.utime(marker, None)
+            return d
+        except OSError:
+            pass                            # pruned between the test and the touch: build again
+    os.makedirs(extract.CACHE, exist_ok=True)
     for f in os.listdir(extract.CACHE):
         fp = os.path.join(extract.CACHE, f)
         # other runs (kill tests, parallel checks) may still be using a recent build: only prune stale ones
-        if f.startswith('rlib-') and time.time() - os.path.getmtime(fp) > 1800:
-            shutil.rmtree(fp, ignore_errors=True)
+        # (a thorough run of all packs takes about an hour and touches the builds it uses)
+        try:
+            if (f.startswith('rlib-') or f.startswith('stage-rlib.')) and fp != d and time.time() - os.path.getmtime(fp) > 4 * 3600:
+                shutil.rmtree(fp, ignore_errors=True)
+        except OSError:
+            pass
     tmp = tempfile.mkdtemp(prefix='wit.')
     try:
         env = dict(os.environ)
@@ -32,11 +41,21 @@ def build_rlib(repo=None):
         if r.returncode != 0:
             raise SystemExit('witness build of /repo failed:\n' + r.stderr[-2000:])
         deps = os.path.join(tmp, 't', 'debug', 'deps')
-        os.makedirs(d, exist_ok=True)
+        # publish atomically: fill a private directory, then rename it into place (a concurrent builder of the
+        # same tree may win the race; its result is identical)
+        stage = tempfile.mkdtemp(prefix='stage-rlib.', dir=extract.CACHE)
         for f in os.listdir(deps):
             if f.endswith('.rlib') or f.endswith('.rmeta'):
-                shutil.copy(os.path.join(deps, f), d)
-        open(marker, 'w').write('ok')
+                shutil.copy(os.path.join(deps, f), stage)
+        open(os.path.join(stage, 'ok'), 'w').write('ok')
+        try:
+            os.rename(stage, d)
+        except OSError:
+            if os.path.exists(marker):
+                shutil.rmtree(stage, ignore_errors=True)
+            else:                           # a half-built directory of an older version of this module
+                shutil.rmtree(d, ignore_errors=True)
+                os.rename(stage, d)
         return d
     finally:
         shutil.rmtree(tmp, ignore_errors=True)
